@@ -69,7 +69,54 @@ def c01(run):
                         "harness arithmetic n*86400e9 in i128 and its own year padding for strings"]
 
 
-PROPS = {"C01": c01}
+# ---------------------------------------------------------------- C04
+def corrupt_first(pred, mutate):
+    def f(evs):
+        for e in evs:
+            if pred(e):
+                mutate(e)
+                return True
+        return False
+    return f
+
+
+def bump_big(b):
+    if b["l"]:
+        b["l"][0] = (b["l"][0] + 1) % 10000
+    else:
+        b["s"] = 1; b["l"] = [1]
+
+
+def head_of(run, path, n, name):
+    small = os.path.join(run.dir, name)
+    with open(path) as f, open(small, "w") as g:
+        for i, l in enumerate(f):
+            if i < n:
+                g.write(l)
+    return small
+
+
+def c04(run):
+    b = lib.build_harness("dev")
+    q = quick(run)
+    for c in (["qdiff", "ndiff", "qadd"] if q else ["tdiff", "ndiff", "tadd"]):
+        # the generator run *is* the model-checking run (same module, same invariants, plus the Emit invariant)
+        cases, n = run.gen("mc/MC_DateArith.tla", f"gen/Gen_C04_{c}.cfg", workers=8, name=c, timeout=3000)
+        run.replay(b, cases, label=c)
+        if c in ("qdiff", "tdiff"):
+            run.negative_control_replay(b, cases, corrupt_first(lambda e: e["out"]["kind"] == "ok" and "d" in e["out"]["val"], lambda e: bump_big(e["out"]["val"]["d"])))
+    tr = run.record(b, "c04", 40000 if q else 600000)
+    run.validate("trace/Trace_Date.tla", "trace/Trace_Date.cfg", tr)
+    small = head_of(run, tr, 500, "c04.small.trace.ndjson")
+    run.negative_control_trace("trace/Trace_Date.tla", "trace/Trace_Date.cfg", small,
+                               corrupt_first(lambda e: e.get("op") in ("PlainDate.add", "PlainDate.subtract") and e["out"]["kind"] == "ok",
+                                             lambda e: e["out"]["val"].__setitem__("d", e["out"]["val"]["d"] % 28 + 1)))
+    run.cov["rule"] = ("replay: every (date pair, largest unit, until|since) and every (date, duration, overflow, add|subtract) transition of the bounded DateArith instance is one distinct case; "
+                      "traces: seeded sessions over the full range (distinct by construction of the PRNG stream)")
+    run.cov["distinct_nontrivial"] = run.cov["evaluations"]
+
+
+PROPS = {"C01": c01, "C04": c04}
 
 
 def main(argv):
